@@ -298,6 +298,8 @@ class Net:
         self.cur += 1
         if st.get("busy_after_ms"):
             # the application does something else for a while before it polls the network again
+            # (the next step waits for it: a node that does not poll cannot relay)
+            self.not_before = wn.t + int(st["busy_after_ms"] * W.MS) + st.get("gap", self.quiet_gap)
             wn.idle(int(st["busy_after_ms"] * W.MS))
         self.not_before = wn.t + st.get("gap", self.quiet_gap)
         self.drain(nn)
